@@ -25,7 +25,7 @@ TECHNIQUE = ("Lean 4 refinement proofs (hand models of the code paths of every c
              "association list / set, invariants by induction over operation histories) + lock-step correspondence runs of "
              "the real code against the std:: containers and the compiled Lean models under ASan/UBSan, with int and with a "
              "non-trivially-copyable instrumented element type")
-LEVEL_TEXT = ("Machine-checked (Props/C20.lean, 70 theorems, axioms propext/Classical.choice/Quot.sound at most): "
+LEVEL_TEXT = ("Machine-checked (Props/C20.lean, 73 theorems, axioms propext/Classical.choice/Quot.sound at most): "
               "XalanVector - every operation history inside std::vector's preconditions makes no out-of-bounds / raw-cell / "
               "stale-iterator access, yields the std contents and size<=allocation; the three storage primitives are the "
               "placement discipline (construct only cell `size`, assign only below `size`, destroy only the last cell); "
@@ -55,7 +55,8 @@ LEVEL_TEXT = ("Machine-checked (Props/C20.lean, 70 theorems, axioms propext/Clas
               "freshly built libxalan-c, ASan+UBSan, lock-step with std::vector/map/set/deque/list/u16string/vector<bool>) and "
               "on the compiled Lean models, comparing the full observable dump after every request, including bucket / "
               "stale-pointer / free-list counters, the sum of bucket capacities, list block counts, the live-instance count "
-              "of the element class and, per request, the number of copy-constructor / assignment / destructor calls the "
+              "of the element class, every returned iterator as an offset from the container's current begin() (by address "
+              "comparison; `dangling` outside it), every returned reference by identity and, per request, the number of copy-constructor / assignment / destructor calls the "
               "container made (compared with the event counts of the models). The floating-point size computations "
               "(1.6*n, 1.6*n+0.5, 0.75*n) are compared with the models' integer formulas for all n <= 3 000 000.")
 LEVEL_NOTE = ("Trusted: Lean kernel (+ leanchecker in the thorough tier); the hand transcription of XalanVector/Map/Set/Deque/"
@@ -93,6 +94,9 @@ THEOREMS = [
     "XalanModel.Props.C20.map_default_rehash_points",
     "XalanModel.Props.C20.map_rehash_bucket_count",
     "XalanModel.Props.C20.vector_push_capacity",
+    "XalanModel.Props.C20.returned_positions_spec",
+    "XalanModel.Props.C20.vector_insert_return_ge_counterexample",
+    "XalanModel.Props.C20.domstring_returned_positions",
     "XalanModel.Props.C20.deque_block_capacity",
     "XalanModel.Props.C20.vector_copy_backward_shift_right",
     "XalanModel.Props.C20.vector_copy_forward_shift_left",
@@ -149,6 +153,13 @@ CORPUS = [
     # minimised past failures / DESIGN §6 candidates run first
     ("vec", ["vec push 0 1", "vec push 0 2", "vec push 0 3", "vec push 0 4", "vec reserve 0 8", "vec insself 0 0 1 2"]),
     ("vec", ["vec push 0 1", "vec push 0 2", "vec resizeself 0 9 0"]),
+    # returned iterators at every fill level: single insert into a full vector (size == capacity), with spare capacity, at end
+    ("vec", ["vec newcap 0 3", "vec push 0 1", "vec push 0 2", "vec push 0 3", "vec ins1 0 1 9", "vec ins1 0 0 8", "vec ins1 0 5 7",
+             "vec erase1 0 2", "vec erase 0 1 3", "vec erase 0 0 0", "vec ins1 0 3 6"]),
+    ("vec", ["vec ins1 0 0 5", "vec ins1 0 0 6", "vec ins1 0 2 7", "vec ins1 0 1 8"]),
+    # a string built from a literal is exactly full: its first insert(iterator, ch) re-allocates
+    ("str", ["str app 0 97.98.99", "str insat 0 1 120", "str insat 0 0 121", "str insat 0 5 122", "str eraseat 0 2", "str eraser 0 1 3"]),
+    ("str", ["str insat 0 0 97", "str insat 0 1 98", "str insat 0 0 99"]),
     # in-place insert whose range stays inside the old contents, more than 2n elements behind the position: the tail must be
     # shifted with copy_backward (a forward element-wise copy smears it; invisible for memmove-able element types)
     ("vec", ["vec newcap 0 9", "vec push 0 1", "vec push 0 2", "vec push 0 3", "vec push 1 7", "vec insr 0 0 1 0 1"]),
